@@ -353,6 +353,46 @@ Proof.
 Qed.
 Print Assumptions C13_full_match_ungrouped_refuted.
 
+(* The enclosing may not be decided from how the part's text begins and ends.  (val-a)|(val-b)
+   begins with "(" and ends with ")" and yet its alternation is at top level: spliced as it is,
+   ^wallet1/(val-a)|(val-b)$ is found in wallet1/val-a-retired and in wallet1/old-val-b, which do
+   not match wallet1/((val-a)|(val-b)).  (Seeded change C13-2, an "already grouped" shortcut in
+   utils.GroupAlternatives; witnesses corpus/C13/group-per-alternative-*.json.) *)
+Theorem C13_full_match_group_per_alternative_refuted :
+  exists (text : string) (ws accs : list re) (s1 s2 : list N),
+    text = "(val-a)|(val-b)"%string /\
+    has_bar text = true /\
+    (exists rest, text = String "(" rest) /\ (exists front, text = (front ++ ")")%string) /\
+    ws = [lit "wallet1"] /\ accs = [lit "val-a"; lit "val-b"] /\
+    s1 = codes "wallet1/val-a-retired" /\ s2 = codes "wallet1/old-val-b" /\
+    search (textual_concat [[Bol]; ws; [slash]; accs; [Eol]]) s1 = true /\
+    search (textual_concat [[Bol]; ws; [slash]; accs; [Eol]]) s2 = true /\
+    ~ full_lang (Seq (alts ws) (Seq slash (alts accs))) s1 /\
+    ~ full_lang (Seq (alts ws) (Seq slash (alts accs))) s2.
+Proof.
+  exists "(val-a)|(val-b)"%string, [lit "wallet1"], [lit "val-a"; lit "val-b"],
+         (codes "wallet1/val-a-retired"), (codes "wallet1/old-val-b").
+  destruct group_per_alternative_escapes as (H0 & H1 & H2 & H3 & H4 & H5 & H6).
+  split; [reflexivity|]. split; [exact H0|]. split; [exact H1|]. split; [exact H2|].
+  repeat (split; [reflexivity || assumption|]). assumption.
+Qed.
+Print Assumptions C13_full_match_group_per_alternative_refuted.
+
+(* ... and what the managers do instead: a part is enclosed exactly when its text contains `|`,
+   whatever it begins and ends with (the text handed to regexp.Compile, and its meaning). *)
+Theorem C13_enclosed_whenever_bar :
+  forall (text : string) (alternatives : list re),
+    (has_bar text = true ->
+       group_text text = ("(?:" ++ text ++ ")")%string /\ group text alternatives = [alts alternatives]) /\
+    (has_bar text = false ->
+       group_text text = text /\ group text alternatives = alternatives).
+Proof.
+  intros text alternatives. split; intro H.
+  - split; [apply group_text_by_bar_only | apply group_by_bar_only]; exact H.
+  - unfold group_text, group. rewrite H. split; reflexivity.
+Qed.
+Print Assumptions C13_enclosed_whenever_bar.
+
 (* ------------------------------------------------------------------------------------------- *)
 (* What the check's predicate establishes about an OBSERVED history (the model is not involved):
    P_b true means -- unless the wallet manager's constructor failed on a failing first validator
@@ -424,6 +464,14 @@ Example C13_example_alternation :
   map (fun n => wallet_admits (wallet_patterns oracle_ab ["W/a|b"%string]) (acct_W n 1))
       ["a"; "b"; "ax"; "xb"; "c"]%string = [true; true; false; false; false].
 Proof. exact grouped_alternation_example. Qed.
+
+(* with a group per alternative: still exactly the two named accounts, in both managers *)
+Example C13_example_group_per_alternative :
+  map (fun n => dirk_admits (dirk_patterns oracle_groups ["wallet1/(val-a)|(val-b)"%string]) (acct_wallet1 n 1))
+      ["val-a"; "val-b"; "val-a-retired"; "old-val-b"; "val-c"]%string = [true; true; false; false; false] /\
+  map (fun n => wallet_admits (wallet_patterns oracle_groups ["wallet1/(val-a)|(val-b)"%string]) (acct_wallet1 n 1))
+      ["val-a"; "val-b"; "val-a-retired"; "old-val-b"; "val-c"]%string = [true; true; false; false; false].
+Proof. exact group_per_alternative_example. Qed.
 
 (* a history: everything known; then the signer offers nothing and the node fails; then the node
    answers nothing -- the answers to the same query stay what they were; account 2 (slashed,
